@@ -100,6 +100,8 @@ func (e *env) config(name string) string {
 		return site("V2", "\tlog / "+filepath.Join(e.dir, "access.log")+" \"{status} {uri}\" {\n\t\trotate_size 1\n\t}\n")
 	case "V3-on":
 		return site("V3", "\ton startup /bin/true\n")
+	case "V5-htpasswd-late":
+		return site("V5", "\tbasicauth /priv u htpasswd=htpasswd-late\n") // (the file that F13 finds incomplete)
 	case "V4-two-listeners":
 		return site("V4", "") + fmt.Sprintf("127.0.0.1:%d {\n\theader / X-V V4b\n\tstatus 204 /ok\n}\n", e.p1)
 	// ---- failing configurations, one per kind and stage of failure ----
@@ -125,6 +127,9 @@ func (e *env) config(name string) string {
 		return site("F9", "") + fmt.Sprintf("127.0.0.1:%d {\n\tstatus 204 /ok\n}\n127.0.0.1:%d {\n\tstatus 204 /ok\n}\n", e.p1, e.pbusy)
 	case "F10-startup-callback-fails":
 		return site("F10", "\tlog / "+filepath.Join(e.dir, "afile", "sub", "access.log")+"\n")
+	case "F13-htpasswd-user-missing":
+		// the password file lacks the user; the operator adds the user after the failed attempt (see child)
+		return site("F13", "\tbasicauth /priv u htpasswd=htpasswd-late\n")
 	case "F12-udp-port-in-use":
 		// (with QUIC on every server also opens a UDP socket: the TCP listener of the second site is open when that fails)
 		return site("F12", "") + fmt.Sprintf("127.0.0.1:%d {\n\tstatus 204 /ok\n}\n", e.p3)
@@ -198,6 +203,9 @@ func child(h history) {
 	kit.WriteFile(dir, "root/priv/p.txt", "PRIVATE")
 	kit.WriteFile(dir, "root/htpasswd", "u:{SHA}W6ph5Mm5Pz8GgiULbPgzG37mj9g=\n") // password: password
 	kit.WriteFile(dir, "root/htpasswd-bad", "this line has no colon\n")
+	// htpasswd-late lacks user u exactly during an F13 attempt (a botched edit); the operator completes it again afterwards
+	lateComplete := "other:{SHA}W6ph5Mm5Pz8GgiULbPgzG37mj9g=\nu:{SHA}W6ph5Mm5Pz8GgiULbPgzG37mj9g=\n"
+	kit.WriteFile(dir, "root/htpasswd-late", lateComplete)
 	kit.WriteFile(dir, "afile", "a regular file\n")
 	busyAddr := "127.0.0.1:0"
 	if *flagPortBase > 0 {
@@ -289,6 +297,9 @@ func child(h history) {
 		panic("kind")
 	}
 	for _, a := range h.Attempts {
+		if strings.HasPrefix(a.Config, "F13-") {
+			kit.WriteFile(dir, "root/htpasswd-late", "other:{SHA}W6ph5Mm5Pz8GgiULbPgzG37mj9g=\n") // the botched edit
+		}
 		preListen, preFDs, preHooks := listenInodes(), listenFDCount(), hooks()
 		done := make(chan stepResult, 1)
 		go func() {
@@ -309,6 +320,9 @@ func child(h history) {
 		}
 		if st.Accepted && a.Kind != "validate" {
 			running = a.Config
+		}
+		if strings.HasPrefix(a.Config, "F13-") {
+			kit.WriteFile(dir, "root/htpasswd-late", lateComplete) // the operator's correction
 		}
 		if !st.Accepted || a.Kind == "validate" {
 			time.Sleep(5 * time.Millisecond)
@@ -455,9 +469,9 @@ func main() {
 		return
 	}
 	rep := kit.NewReport("C08", "model_checking",
-		"every history of <=2 (thorough 3) attempts over {validate, Instance.Restart, real SIGUSR1} x {14 failing configurations (one per failure kind and stage), 4 valid ones}, each followed by each of 4 valid final configurations, one child process per history; after every failed attempt: listening sockets (inodes and descriptor count), running site and event hooks unchanged; the final configuration must load within the backstop and answer a battery exactly as in a fresh process; distinct_nontrivial = distinct histories classes")
-	failing := []string{"F1-syntax", "F2-unknown-directive", "F3-htpasswd-missing", "F3b-htpasswd-malformed", "F4-log-bad-roller", "F5-proxy-bad-second", "F6-tls-missing-cert", "F7-on-after-valid-on", "F8-missing-import", "F9-port-in-use", "F10-startup-callback-fails", "F11-late-setup-error-after-log-and-on", "F12-udp-port-in-use"}
-	valid := []string{"V1-htpasswd", "V2-rolled-log", "V3-on", "V4-two-listeners"}
+		"every history of <=2 (thorough 3) attempts over {validate, Instance.Restart, real SIGUSR1} x {15 failing configurations (one per failure kind and stage), 5 valid ones}, each followed by each of 5 valid final configurations, one child process per history; after every failed attempt: listening sockets (inodes and descriptor count), running site and event hooks unchanged; the final configuration must load within the backstop and answer a battery exactly as in a fresh process; distinct_nontrivial = distinct histories classes")
+	failing := []string{"F1-syntax", "F2-unknown-directive", "F3-htpasswd-missing", "F3b-htpasswd-malformed", "F4-log-bad-roller", "F5-proxy-bad-second", "F6-tls-missing-cert", "F7-on-after-valid-on", "F8-missing-import", "F9-port-in-use", "F10-startup-callback-fails", "F11-late-setup-error-after-log-and-on", "F12-udp-port-in-use", "F13-htpasswd-user-missing"}
+	valid := []string{"V1-htpasswd", "V2-rolled-log", "V3-on", "V4-two-listeners", "V5-htpasswd-late"}
 	kinds := []string{"validate", "restart", "sigusr1"}
 	var atts []attempt
 	for _, k := range kinds {
